@@ -327,6 +327,111 @@ def h_types(t: TYPES_SEL) -> bool:
   return not problems
 
 
+# ---------------------------------------------------------------- h_resolved
+#
+# Stubs printed from RESOLVED ASTs.  What pytype emits is not printed from a
+# freshly parsed AST but from one that went through the resolving visitors
+# (optimize.Optimize applies AdjustSelf; load_pytd / serialize_ast / the tracer
+# apply AdjustTypeParameters): classes carry templates and self / cls carry
+# their class type, and the printer's decision to omit those annotations
+# (PrintVisitor.VisitParameter.class_name) only matters on such ASTs.  Here the
+# real visitors build the resolved AST from a generated stub, and the text
+# printed from it must be a fixed point of plain parse-then-print.
+
+# outer generic, nesting depth (0..2), method kind (0 method, 1 class, 2 static,
+# 3 property), first-parameter annotation (0 none, 1 short name, 2 qualified
+# name), return type (0 int, 1 the qualified class, 2 T when bound), pipeline
+# (0 AdjustTypeParameters, 1 + AdjustSelf(), 2 + AdjustSelf(force=True))
+RES_SEL = Tuple[(int,) * 6]
+RES_HEADER = "from typing import Annotated, Any, Generic, TypeVar\nT = TypeVar('T')\n"
+
+
+def res_ok(t):
+  return all([inrange(t[0], 0, 2), inrange(t[1], 0, 3), inrange(t[2], 0, 4),
+              inrange(t[3], 0, 3), inrange(t[4], 0, 3), inrange(t[5], 0, 3)])
+
+
+def res_key(t):
+  key = 0
+  for x, r in zip(t, (2, 3, 4, 3, 3, 3)):
+    key = key * r + x
+  return key
+
+
+def res_text(t):
+  ob, depth, mk = conc(t[0], 2), conc(t[1], 3), conc(t[2], 4)
+  ann, ret, adj = conc(t[3], 3), conc(t[4], 3), conc(t[5], 3)
+  names = ["Outer", "Mid", "Inner"][:depth + 1]
+  qual, short = ".".join(names), names[-1]
+  lines = [RES_HEADER.rstrip("\n")]
+  ind = ""
+  for i, n in enumerate(names):
+    lines.append("%sclass %s%s:" % (ind, n, "(Generic[T])" if (i == 0 and ob) else ""))
+    ind += "    "
+    if i < len(names) - 1:
+      lines.append("%sv%d: int" % (ind, i))
+  cn = [None, short, qual][ann]
+  rt = ["int", qual, "T" if (ob and depth == 0) else "int"][ret]
+  if mk == 0:
+    lines.append("%sdef m(%s, a: int) -> %s: ..." % (ind, "self" if cn is None else "self: " + cn, rt))
+  elif mk == 1:
+    lines += [ind + "@classmethod",
+              "%sdef m(%s, a: int) -> %s: ..." % (ind, "cls" if cn is None else "cls: type[%s]" % cn, rt)]
+  elif mk == 2:
+    lines += [ind + "@staticmethod", "%sdef m(a: int) -> %s: ..." % (ind, rt)]
+  else:
+    lines.append("%sm: Annotated[%s, 'property']" % (ind, rt))
+  return "\n".join(lines) + "\n", adj, (ob, names, mk, ann == 0)
+
+
+def resolved_roundtrip(text, adj, plain_first=False):
+  problems = []
+  ast0 = parser.parse_string(text)
+  ast_r = ast0.Visit(visitors.AdjustTypeParameters())
+  if adj:
+    ast_r = ast_r.Visit(visitors.AdjustSelf(force=(adj == 2)))
+  ast_r.Visit(visitors.VerifyVisitor())
+  t1 = pytd_utils.Print(ast_r)          # what pytype emits for the resolved AST
+  ast1 = parser.parse_string(t1)
+  ast1.Visit(visitors.VerifyVisitor())
+  t2 = pytd_utils.Print(ast1)
+  if t2 != t1:
+    problems.append("the text printed from the resolved AST is not a fixed point of parse-then-print")
+  if pytd_utils.Print(ast0) != t1:
+    problems.append("resolving the AST changed the printed text")
+  # (both printed by now: Class equality includes the name cache Print fills.)
+  # An explicit `self: C` / `cls: type[C]` is deliberately printed as bare
+  # self / cls (see AdjustSelf's docstring), so declarations are compared only
+  # when the generated text has none.
+  if plain_first and not pytd_utils.ASTeq(ast1, ast0):
+    problems.append("re-read declarations differ from the declarations the text was generated from")
+  c1 = parser.canonical_pyi(t1)
+  if parser.canonical_pyi(c1) != c1:
+    problems.append("canonical_pyi is not idempotent")
+  return problems, ast_r, t1
+
+
+def h_resolved(t: RES_SEL) -> bool:
+  """
+  pre: res_ok(t)
+  pre: shard_ok(res_key(t))
+  post: check_post(_)
+  """
+  text, adj, (ob, names, mk, plain) = res_text(t)
+  problems, ast_r, t1 = resolved_roundtrip(text, adj, plain)
+  cls = ast_r.Lookup(names[0])
+  if bool(cls.template) != bool(ob):
+    problems.append("outer class template %r" % (cls.template,))
+  for n in names[1:]:
+    inner = [c for c in cls.classes if c.name == n]
+    if len(inner) != 1:
+      problems.append("nested class %s lost" % n)
+      break
+    cls = inner[0]
+  record("R %r/%d N" % (text[len(RES_HEADER):], adj))
+  return not problems
+
+
 def explain(fn, t):
   if fn == "h_func":
     params, va, kw, ty, ov = func_spec(t)
@@ -334,6 +439,17 @@ def explain(fn, t):
     spec = params
   elif fn == "h_class":
     text, spec = class_text(t)
+  elif fn == "h_resolved":
+    text, adj, spec = res_text(t)
+    out = {"stub": text, "pipeline": ["AdjustTypeParameters", "+ AdjustSelf()", "+ AdjustSelf(force=True)"][adj]}
+    try:
+      problems, _, t1 = resolved_roundtrip(text, adj, spec[3])
+      out["emitted"] = t1
+      out["re-printed"] = pytd_utils.Print(parser.parse_string(t1))
+      out["problems"] = problems
+    except Exception as e:  # pylint: disable=broad-except
+      out["raised"] = "%s: %s" % (type(e).__name__, e)
+    return out
   else:
     return {"selectors": list(t)}
   out = {"stub": text, "spec": repr(spec)}
